@@ -512,6 +512,9 @@ def call_case(ctx: fw.Ctx, case: dict, D: list) -> None:
     if not out['finished']:
         ctx.fail('authenticated request never finished', case, observed={'attempts': len(out['times'])}, sig='call-hangs')
         return
+    if type(out['exc']).__name__ == 'LoginError':
+        ctx.fail('a request hit by a 401 failed although the re-authentication it caused succeeded', case,
+                 observed={'exc': repr(out['exc']), 'logins': out['logins']}, sig='blocked-request-failed')
     faults = out['faults']
     n401 = sum(1 for f in faults if f[0] in ('ssl', 'rtclosed') or (f[0] == 'status' and f[1] == 401))
     # monitor: one login per authentication failure; the attempt after it uses the new credentials, at once after the login
@@ -877,7 +880,8 @@ def run_vault(case: dict) -> dict:
             log.append(('wake-empty',))
 
         def update_converted(src: Any) -> None:
-            log.append(('populate', [(k, i.aiohttp_session.cred, i.priority) for k, i in src.items()]))
+            log.append(('populate', [(k, i.aiohttp_session.cred, i.priority) for k, i in src.items()],
+                        frozenset(server.valid), frozenset(server.closed_at)))
             orig_upd(src)
             number_new_items(vault, list(src))
 
@@ -919,13 +923,14 @@ def run_vault(case: dict) -> dict:
                 await asyncio.sleep(start)
             for j in range(n):
                 t_begin = loop.time()
+                log.append(('begin', name, j))
                 try:
                     await api.request('get', f'/apis/{name}/{j}', settings=settings, logger=logger)
                     res.append({'begin': t_begin, 'end': loop.time(), 'exc': None})
                     log.append(('done', name))
                 except BaseException as e:  # noqa
                     res.append({'begin': t_begin, 'end': loop.time(), 'exc': type(e).__name__})
-                    log.append(('failed', name, type(e).__name__))
+                    log.append(('failed', name, type(e).__name__, j, frozenset(server.valid), frozenset(server.closed_at)))
                 if gap:
                     await asyncio.sleep(gap)
 
@@ -1039,6 +1044,25 @@ def gen_vault_case(r: Any) -> dict:
     return {'init': init, 'latency': latency, 'revoke': revoke, 'logins': logins, 'requesters': requesters}
 
 
+def burst_cases() -> list[dict]:
+    """N in {2,3,5} requesters failing on the same single item while the re-authentication is pending:
+    'together' = all 401s arrive at the same instant, before the login starts; 'staggered' = later 401s /
+    closed-session errors arrive while the login is still running."""
+    out = []
+    for n in (2, 3, 5):
+        for login_lat in (0, 3):
+            out.append({'init': [['k0', 100, 0]], 'latency': 2, 'revoke': [[0, 100]],
+                        'logins': [{'lat': login_lat, 'give': [['k0', 101, 0, True]]}],
+                        'requesters': [[0, 2, 1] for _ in range(n)]})
+            out.append({'init': [['k0', 100, 0]], 'latency': 3, 'revoke': [[1, 100]],
+                        'logins': [{'lat': 5 + login_lat, 'give': [['k0', 101, 0, True]]}],
+                        'requesters': [[i, 2, 1] for i in range(n)]})
+            out.append({'init': [['k0', 100, 0]], 'latency': 0, 'revoke': [[2, 100], [9, 101]],
+                        'logins': [{'lat': 4, 'give': [['k0', 101, 0, True]]}, {'lat': 1 + login_lat, 'give': [['k0', 102, 0, True]]}],
+                        'requesters': [[2 + i, 3, 4] for i in range(n)]})
+    return out
+
+
 def match_f1202(f: dict) -> bool:
     """F1202: credentials invalidated more than 3 invalidations (of the same key) ago are accepted again."""
     return f['sig'] == 'invalid-reused' and f['observed'].get('invalidations_since', 0) >= 3
@@ -1110,6 +1134,44 @@ def vault_case(ctx: fw.Ctx, case: dict, T: list) -> None:
                 ctx.fail('a request failed with something else than a login error', case, observed={'requester': name, 'res': res}, sig='vault-request-error')
     if out['unfinished']:
         ctx.fail('requesters blocked forever', case, observed=out['unfinished'], sig='requester-blocked')
+    # (4) "after which ALL blocked requests proceed with fresh credentials": a request that reported an
+    #     authentication failure (401 / closed session) must not fail with a login error when the login that
+    #     followed its report handed out credentials that are valid and not invalidated at the time it fails
+    started = sum(len(v) for v in out['results'].values())
+    succeeded = sum(1 for v in out['results'].values() for x in v if x['exc'] is None)
+    login_errors = sum(1 for v in out['results'].values() for x in v if x['exc'] == 'LoginError')
+    blocked_failed = 0
+    lg = out['log']
+    for i, e in enumerate(lg):
+        if e[0] != 'failed' or e[2] != 'LoginError':
+            continue
+        name, j, valid_then, closed_then = e[1], e[3], e[4], e[5]
+        b = max(k for k in range(i) if lg[k][0] == 'begin' and lg[k][1] == name and lg[k][2] == j)
+        reports = [k for k in range(b, i) if lg[k][0] == 'inv-enter' and lg[k][1] == name]
+        if not reports:
+            continue            # never held credentials: the ready-but-empty vault (see F1203)
+        nxt = [k for k in range(reports[-1], len(lg)) if lg[k][0] == 'populate']
+        if not nxt:
+            continue
+        given = [c for _, c, _ in lg[nxt[0]][1]]
+        if nxt[0] > i:          # it gave up before the login it had caused was over: judge the login's result then
+            valid_then, closed_then = lg[nxt[0]][2], lg[nxt[0]][3]
+        if any(c in valid_then and c not in closed_then for c in given):
+            blocked_failed += 1
+            ctx.fail('a request hit by the 401 burst failed although the re-authentication it caused succeeded', case,
+                     observed={'requester': name, 'request': j, 'exc': 'LoginError', 'login_gave': given,
+                               'failed_before_login_finished': nxt[0] > i,
+                               'requests': {'started': started, 'succeeded': succeeded, 'login_errors': login_errors}},
+                     sig='blocked-request-failed')
+    ctx.count('vault_requests', 'started', started)
+    ctx.count('vault_requests', 'succeeded', succeeded)
+    ctx.count('vault_requests', 'failed_login_error', login_errors)
+    ctx.count('vault_requests', 'failed_although_relogin_succeeded', blocked_failed)
+    held = {}
+    for e in lg:
+        if e[0] == 'inv-enter':
+            held.setdefault((e[2], e[3]), set()).add(e[1])
+    ctx.count('vault_burst_size', str(min(max([len(v) for v in held.values()] or [0]), 6)))
     # ---- trace acceptance ----
     labels = vault_labels(case, out['log'])
     src = cq.clist(f"({int(k[1:])}%nat, {cq.cZ(c * 4 + p)}, {cq.cZ(p)})" for k, c, p in case['init'])
@@ -1402,6 +1464,8 @@ def run(ctx: fw.Ctx) -> int:
     for c in corpus:
         if c.get('kind') == 'vault':
             vault_case(ctx, c['case'], T_vault)
+    for c in burst_cases():
+        vault_case(ctx, c, T_vault)
     for _ in range(ctx.scale(800, 8000)):
         c = gen_vault_case(r)
         vault_case(ctx, c, T_vault)
